@@ -493,6 +493,11 @@ def method_of(I, obj, name):
             return BM(obj, B("str." + name, impl))
     if isinstance(obj, SSeq):
         return sseq_method(I, obj, name)
+    if isinstance(obj, (SBytes, SNumStr)):
+        key = ("bytes." if isinstance(obj, SBytes) else "str.") + name
+        impl = I.lib.get(key)
+        if impl is not None:
+            return BM(obj, B(key, impl))
     if isinstance(obj, Opaque):
         impl = I.lib.get(f"opaque:{obj.name}.{name}")
         if impl is not None:
@@ -1138,6 +1143,24 @@ def install_misc(I):
     L["inspect.signature"] = sig_params
 
 
+def install_numpy_scalars(I):
+    """numpy scalar objects are Obj instances of a class named numpy.<type> with a 'value' attribute"""
+    sx = _sx()
+    isnp = lambda x, pre: isinstance(x, sx.Obj) and x.cls.name.startswith(pre)
+    I.lib["isinstance:numpy.integer"] = lambda I, x: isnp(x, "numpy.int")
+    I.lib["isinstance:numpy.floating"] = lambda I, x: isnp(x, "numpy.float")
+    I.lib["isinstance:numpy.number"] = lambda I, x: isnp(x, "numpy.")
+    I.lib["isinstance:numbers.Number"] = lambda I, x: V.is_num(x) or isnp(x, "numpy.")
+    I.lib["isinstance:numbers.Real"] = I.lib["isinstance:numbers.Number"]
+    old_float = I.builtins["float"].fn
+
+    def b_float(I, x=0):
+        if isnp(x, "numpy."):
+            return old_float(I, x.attrs["value"])
+        return old_float(I, x)
+    I.builtins["float"] = sx.Builtin("float", b_float)
+
+
 def install(I):
     install_builtins(I)
     install_dict(I)
@@ -1148,6 +1171,8 @@ def install(I):
     lmfit_model.install(I)
     install_sseq(I)
     install_sysmods(I)
+    install_bytes(I)
+    install_numpy_scalars(I)
 
 
 # ================================================================== symbolic-length lists (z3 sequences)
@@ -1268,5 +1293,70 @@ def install_sysmods(I):
     def b_str(I, x=""):
         if isinstance(x, sx.Obj) and x.cls is PATH:
             return x.attrs["str"]
+        return old_str(I, x)
+    I.builtins["str"] = sx.Builtin("str", b_str)
+
+
+# ================================================================== bytes as chunk lists (obj2bytes / md5)
+class SBytes(Sym):
+    """bytes value as a list of chunks:
+       ("utf8", str|SAtom)  ("num", numeric value: text of str(float(v)))  ("raw", SArray)  ("lit", bytes)"""
+
+    def __init__(self, chunks):
+        self.chunks = list(chunks)
+
+    def __repr__(self):
+        return f"SBytes({self.chunks})"
+
+
+class SNumStr(Sym):
+    """str(float(v)) of a numeric value"""
+
+    def __init__(self, value, kind="num"):
+        self.value = value
+        self.kind = kind      # "num": text of a float; "inttxt"/"booltxt": str() of an int / bool
+
+
+def install_bytes(I):
+    L = I.lib
+    sx = _sx()
+
+    def encode(I, self, *a):
+        if isinstance(self, SNumStr):
+            return SBytes([(self.kind, self.value)])
+        return SBytes([("utf8", I.resolve(self))])
+    L["str.encode"] = encode
+
+    def b_join(I, self, parts):
+        out = []
+        items = iterate(I, parts)
+        for i, p in enumerate(items):
+            if not isinstance(p, SBytes):
+                raise Unsupported("bytes.join of non-bytes")
+            if i and self.chunks:
+                out += self.chunks
+            out += p.chunks
+        return SBytes(out)
+    L["bytes.join"] = b_join
+    L["ndarray.tobytes"] = lambda I, self: SBytes([("raw", SArray(self.length, self.snap(), self.kind))])
+
+    MD5 = sx.ClassVal("md5", [sx.OBJECT], {})
+    MD5.ns["hexdigest"] = sx.Builtin("hexdigest", lambda I, self: ("__md5__", self.attrs["data"]))
+
+    def md5(I, data=None):
+        if not isinstance(data, SBytes):
+            raise Unsupported("md5 of non-bytes")
+        return sx.Obj(MD5, {"data": data})
+    L["hashlib.md5"] = md5
+
+    old_str = I.builtins["str"].fn
+
+    def b_str(I, x=""):
+        if isinstance(x, (Fraction, SReal)) or (isinstance(x, float)):
+            return SNumStr(x)
+        if isinstance(x, SBool):
+            return SNumStr(x, "booltxt")
+        if isinstance(x, SInt):
+            return SNumStr(x, "inttxt")
         return old_str(I, x)
     I.builtins["str"] = sx.Builtin("str", b_str)
